@@ -39,6 +39,19 @@ fn scalar_value<'tcx>(cx: &mut Cx<'tcx>, value: ty::Value<'tcx>) -> J {
                 return J::O(vec![("t", J::s("int")), ("v", J::I(v))]);
             }
         }
+        ty::Str => {
+            let bytes: Option<Vec<u8>> = value
+                .to_branch()
+                .iter()
+                .map(|ct| ct.try_to_value().and_then(|v| v.try_to_leaf()).map(|l| l.to_u8()))
+                .collect();
+            if let Some(bytes) = bytes {
+                return J::O(vec![
+                    ("t", J::s("str")),
+                    ("v", J::S(String::from_utf8_lossy(&bytes).into_owned())),
+                ]);
+            }
+        }
         ty::Ref(_, inner, _) if inner.is_str() => {
             if let Some(bytes) = value.try_to_raw_bytes(tcx) {
                 return J::O(vec![
